@@ -42,6 +42,8 @@ let string_of_clause = function
   | JoinS.ClKeyEquality -> "key_equality" | JoinS.ClKeptDropped -> "kept_vs_dropped"
   | JoinS.ClRowContents -> "row_contents" | JoinS.ClError -> "error" | JoinS.ClUpsertResult -> "upsert_result"
   | JoinS.ClConcMonotone -> "concurrent_monotone" | JoinS.ClConcFinal -> "concurrent_final" | JoinS.ClShape -> "shape"
+  | JoinS.ClWindowCount -> "window_count" | JoinS.ClWindowGroups -> "window_groups"
+  | JoinS.ClWindowAggregate -> "window_aggregate"
 
 (* ---- token stream parsing (a mutable cursor over the token list) ---- *)
 type cur = { mutable t : string list }
@@ -99,12 +101,16 @@ let pconfig (cfgt : string list) =
   if next c <> "S" then failwith "expected S";
   let ns = int c in
   let sel = times ns (fun () -> let name = bytes_of_ascii (next c) in let p = ppath c in (name, p)) in
-  let wc = (match next c with
+  let rec pwhere () = (match next c with
     | "W0" -> WTrue
     | "WE" -> let p = ppath c in WStrEq (p, sbytes (next c))
     | "WN" -> WIsNull (ppath c)
     | "WNN" -> WNotNull (ppath c)
+    | "WGT" -> let p = ppath c in WIntGt (p, z_of_dec (next c))
+    | "WA" -> let a = pwhere () in let b = pwhere () in WAnd (a, b)
+    | "WO" -> let a = pwhere () in let b = pwhere () in WOr (a, b)
     | t -> failwith ("bad where " ^ t)) in
+  let wc = pwhere () in
   (q, sel, wc)
 
 (* <table> <A | nk keys...> <nrows> rows... *)
@@ -226,6 +232,63 @@ let handle_K (toks : string list) : string =
             | None -> if List.length writes > 0 then "ok nt" else "ok"))
   | _ -> "bad line"
 
+(* windowed family: <config> # <registrations> # <N> <grouped> # <ops> # <batches> [# L <op>].
+   Expected = the windows (N kept rows each, in processing order) of the abstract table's per-row enrichment,
+   grouped by the joined column, with COUNT / SUM / MAX over the joined column v and MAX over the stream
+   column seq; judged by the extracted JoinS.chk_C16_window. *)
+let show_oz = function Some z -> "I" ^ dec_of_z z | None -> "N"
+let show_agg (a : JoinS.wagg) =
+  Printf.sprintf "(g=%s c=%s sum=%s max=%s seq=%s)" (tok_of_kv a.JoinS.wa_g) (dec_of_z a.JoinS.wa_c)
+    (show_oz a.JoinS.wa_sum) (show_oz a.JoinS.wa_max) (show_oz a.JoinS.wa_seq)
+let handle_W (toks : string list) : string =
+  match Win.split_hash toks with
+  | cfgt :: regt :: [n; grouped] :: opt :: bt :: rest ->
+      let (q, _, _) = pconfig cfgt in
+      let regs = pregs regt in
+      let ol = pops opt in
+      let hs = List.map fst ol in
+      let c = { t = bt } in
+      let rec batches () =
+        match peek c with
+        | None -> []
+        | Some _ ->
+            if next c <> "B" then failwith "expected B";
+            let k = int c in
+            let b = times k (fun () ->
+              let g = kv_of_tok (next c) in let cn = kv_of_tok (next c) in let sv = kv_of_tok (next c) in
+              let mx = kv_of_tok (next c) in let ms = kv_of_tok (next c) in ((((g, cn), sv), mx), ms)) in
+            b :: batches () in
+      let obs = batches () in
+      let j = List.hd q.q_joins in
+      let alias = eff_alias j in
+      let gcol = if grouped = "1" then Some (bytes_of_ascii "tag") else None in
+      let vcol = bytes_of_ascii "v" and seqcol = bytes_of_ascii "seq" in
+      let nn = nat_of_int (int_of_string n) in
+      let show_obs b = String.concat " " (List.map (fun ((((g, cn), sv), mx), ms) ->
+        Printf.sprintf "(g=%s c=%s sum=%s max=%s seq=%s)" (tok_of_kv g) (tok_of_kv cn) (tok_of_kv sv) (tok_of_kv mx) (tok_of_kv ms)) b) in
+      (match rest with
+       | ["L" :: i :: _] ->
+           Printf.sprintf "chk row_not_looked_up op=%s (a row of a JOIN query was emitted and the table was never asked for it)" i
+       | _ ->
+         let exp = JoinS.windows_expected nn (JoinS.window_rows alias gcol vcol seqcol (spec_hrun_sql q regs hs)) in
+         let m = JoinS.windows_expected nn (JoinS.window_rows alias gcol vcol seqcol (model_hrun_sql q regs hs)) in
+         (match JoinS.chk_C16_window q regs hs nn alias gcol vcol seqcol obs with
+          | Some (i, cl) ->
+              let i = int_of_nat i in
+              Printf.sprintf "chk %s window=%d expected=[%s] impl=[%s] windows_expected=%d windows_observed=%d%s%s"
+                (string_of_clause cl) i
+                (if i < List.length exp then String.concat " " (List.map show_agg (List.nth exp i)) else "-")
+                (if i < List.length obs then show_obs (List.nth obs i) else "-")
+                (List.length exp) (List.length obs)
+                (if well_oriented q then "" else " on_swapped")
+                (if JoinS.chk_windows O m obs = None then "" else " model differs")
+          | None ->
+              if m <> exp then "diff window model and abstract table disagree"
+              else
+                let upd = List.exists (function HCOp (OUpsert _) | HCOp (ODelete _) -> true | _ -> false) hs in
+                if upd && List.length exp >= 2 then "ok nt" else "ok"))
+  | _ -> "bad line"
+
 (* the extracted encodeKey, memoised on the token text of its argument (a pure function; the pool x pool
    pairs evaluate it on the same ~100 values again and again, some with 300-digit expansions) *)
 let memo : (string, n list) Hashtbl.t = Hashtbl.create 1024
@@ -263,6 +326,7 @@ let handle (toks : string list) : string =
        | _ -> "bad line")
   | "J" :: rest -> handle_J rest
   | "K" :: rest -> handle_K rest
+  | "W" :: rest -> handle_W rest
   | ["X"; what; sql; err] ->
       (* every generated query and registration is valid: a rejection is an error where none is due *)
       Printf.sprintf "chk %s %s rejected: %s <- %s" (string_of_clause JoinS.ClError) what
